@@ -672,6 +672,8 @@ func Input(l *InputSharedVars, g *GlobalVarsMain, hPath *HFilePath, driConfig *C
 								_, valEinte := g.Datum(g.TILDAT[NRTILindex])
 								g.EINTE[NRTIL] = valEinte
 								if g.EINTE[NRTIL] < g.BEGINN {
+									// dropped: clear the slot, a last event dated on the eve of the start was carried out on the start day
+									g.EINTE[NRTIL] = 0
 									NRTIL--
 								}
 								SCHLAG, tilageTokens, valid = NextLineInut(0, scannertilage, strings.Fields)
